@@ -12,7 +12,6 @@ def run(ctx):
     P += common.cyclic_family(ctx.pick(60, 800), ctx.seed + 23100, evidence=0.0)
     for p in P:
         p["evidence"] = []
-    P = [p for p in P if not semcheck.triggers(p).get("repeated_var_query")]
     J = semcheck.judge(P, nproc=ctx.nproc)
     jobs, idx = [], []
     for i, p in enumerate(P):
